@@ -40,7 +40,7 @@ def accessor_specs(ctx):
         ("mem_write_bytes", facts.bodies[R.mem_write_bytes], 2,
          lambda: [P.self_ref(True), A.W(("address",), 64), ("dataslice",)],
          [("len", ("dataslice",))]),
-        ("mem_read_executable_bytes", facts.method("axecutor::Axecutor", "mem_read_executable_bytes"), 4,
+        ("mem_read_executable_bytes", facts.bodies[R.decoders()[2]], 4,
          lambda: [P.self_ref(False), A.W(("address",), 64)], []),
     ]
 
@@ -152,7 +152,7 @@ def bodies_touching(facts, field):
 
 def who(ctx):
     ck, facts, R = ctx.check, ctx.facts, ctx.roles
-    gated = {R.mem_read_bytes, R.mem_write_bytes, facts.method("axecutor::Axecutor", "mem_read_executable_bytes")["path"]}
+    gated = {R.mem_read_bytes, R.mem_write_bytes, R.decoders()[2]}
     lifecycle = {facts.method("axecutor::Axecutor", n)["path"] for n in ("mem_init_area_named", "mem_resize_section")}
     protf = facts.method("axecutor::Axecutor", "mem_prot")["path"]
     renderer = {k for k in facts.bodies if facts.bodies[k].get("impl_self") == AREA_ADT and not facts.bodies[k]["glue"]}
